@@ -267,9 +267,46 @@ Theorem C02_ipoe_v6_reply_is_recorded :
 Proof. exact ipoe_v6_reply_is_recorded. Qed.
 Print Assumptions C02_ipoe_v6_reply_is_recorded.
 
+(* PPPoE: the IPCP-acknowledged address equals the recorded one, over any number of Configure-Request exchanges of one
+   authentication.  [told_ok] holds of every PPPoE session of a reachable state (invariant behind C02_told_is_recorded).
+   A Configure-Nak'ed or rejected proposal leaves nothing behind: the next request - also one without an IP-Address
+   option - is answered from the told address alone (seeded C02_r2 remembered the Nak'ed proposal). *)
+Theorem C02_ipcp_ack_is_recorded :
+  forall st s a st' r v4,
+  told_ok s -> s_ppp s = true -> In (st', OPi r v4) (step_pi st s a) ->
+  (exists b, st_sess st' = put_sess (pi_upd s v4 b) (st_sess st)) /\
+  (forall x, r = PiAck (Some x) -> v4 = Some x /\ s_told s = Some x) /\
+  ((forall x, r <> PiAck (Some x)) -> v4 = s_a4 s).
+Proof. exact pi_ack_is_recorded. Qed.
+Print Assumptions C02_ipcp_ack_is_recorded.
+
+(* HA sync entry points (Reserve*InPool): the pool a key names is looked up among the pools of the address's OWN family
+   - an IPv4 pool and an IA_NA pool may carry the same name - and the reservation is made there.  Example: pools "1" in
+   both families; the peer's session 1000 reserves IA_NA address v6a in pool "1"; the local subscriber that connects
+   afterwards is given the other address of the IA_NA pool (seeded C02_r3 looked the name up in the IPv4 map). *)
+Theorem C02_reserve_named_own_family :
+  forall v f k x s r p c,
+  find (fun p => p_key p =? k) (fam_pools f r) = Some p ->
+  In c (reserve_named v f (Some k) x s r) -> c = reserve_in r p x s /\ p_fam p = f.
+Proof.
+  intros v f k x s r p c Hf. unfold reserve_named. rewrite Hf. intros [<-|[]]. split; [reflexivity|].
+  apply find_in in Hf. destruct Hf as [Hf _]. apply fam_pools_in in Hf. apply Hf.
+Qed.
+Print Assumptions C02_reserve_named_own_family.
+Definition v6a : N := 42540766411282592875350729025363378177.
+Definition w9_ps := [new_pool F4 1 0 0 (GRange a1 a2 []); new_pool F6 1 0 0 (GRange v6a (v6a + 1) [])].
+Definition w9_ss := [new_sess 2 false None (Some 0) 2].
+Definition w9_ops := [HR F6 (Some 1) (v6a, 0) 1000; IS true 2 0 None None None None].
+Example C02_ha_named_reserve_example :
+  let st := run_first Repaired (init_state w9_ps w9_ss) w9_ops in
+  holds_of st 2 F6 = Some (v6a + 1, 0) /\
+  (forall p, In p (pools (st_reg st)) -> p_fam p = F4 -> p_leases p = []).
+Proof. vm_compute. split; [reflexivity|]. intros p [<-|[<-|[]]]; [reflexivity|discriminate]. Qed.
+Print Assumptions C02_ha_named_reserve_example.
+
 (* ------------------------------------------------------------------ the code at /repo HEAD *)
 (* [Head] = the variant /repo HEAD implements (fixed: constant fall-back 24c9504, expiry take-over 58e16d0,
-   unresolved answers d5fadd1, pending ACK b04c868, nil pool d114f02; still open: unchecked release, untracked
+   unresolved answers d5fadd1, pending ACK b04c868, nil pool d114f02, overlapping AAA prefix 23daa44; still open: unchecked release, untracked
    out-of-pool statics, VRF-blind containment walk / override, restore keeping conflicting addresses).
    [reach_benign]: at every step of the history HEAD has exactly the successors of the Repaired model, i.e. none of
    the open-finding triggers fires at that step (the driver evaluates exactly this per case, mode "benign").
@@ -447,13 +484,14 @@ Proof.
 Qed.
 Print Assumptions C02_pd_nonvacuous.
 
-(* Finding "pd-static-prefix-overlaps-pool" (flag d10): an AAA Delegated-IPv6-Prefix whose length differs from the
-   pool's delegated length is "in no pool" for ReservePD (prefixToIndex compares the lengths first), so a /56 that
+(* Finding "pd-static-prefix-overlaps-pool" (flag d10, fixed in /repo 23daa44; the refutation runs on Defective, the
+   tree before the fix): an AAA Delegated-IPv6-Prefix whose length differed from the
+   pool's delegated length was "in no pool" for ReservePD (prefixToIndex compares the lengths first), so a /56 that
    covers a /62 -> /64 pool is accepted and the pool goes on delegating /64s inside it.  C02_pd_no_overlap excludes
    this by hypothesis (both prefixes are delegations of a pool); the Repaired model refuses such a prefix. *)
 Definition w7_ops := [IS true 1 0 None (Some (pdbase, 56)) None None; IS true 2 0 None None None None].
 Theorem C02_pd_static_overlap_refuted :
-  let st := run_first Head (init_state w5_ps w5_ss) w7_ops in
+  let st := run_first Defective (init_state w5_ps w5_ss) w7_ops in
   holds_of st 1 FD = Some (pdbase, 56) /\ holds_of st 2 FD = Some (pdbase, 64) /\ overlap (pdbase, 56) (pdbase, 64).
 Proof. vm_compute. repeat split; reflexivity. Qed.
 Print Assumptions C02_pd_static_overlap_refuted.
